@@ -1,21 +1,21 @@
-\* exhaustive, repaired flags, adversarial names (underscores): 2 databases x 2 collection names x 1 incarnation x 1 partition; source time 10 min behind the local clock
+\* exhaustive (quick), repaired flags, catalog size as an input: 1 database x 1 collection name x 2 incarnations x 1 partition name x 2 incarnations, a block of 1500 filler records in every gap of the key order of either record prefix
 SPECIFICATION Spec
 CHECK_DEADLOCK FALSE
 INVARIANTS TypeOK ContractMilvus ContractKafka
 CONSTANTS
-  DBs <- TwoDBs
-  CNames <- TwoCs
+  DBs <- OneDB
+  CNames <- OneC
   PNames <- OneP
-  MaxInc = 1
-  MaxPInc = 1
+  MaxInc = 2
+  MaxPInc = 2
   DbStates = {"live", "goneDown", "goneBoth"}
   CStates = {"created", "dropped", "tombstone"}
   PStates = {"created", "dropped"}
-  Concrete <- NamesClash
+  Concrete <- NamesPlain
   Now = 100
   Skews = {"behind"}
-  FillGaps = "off"
-  FillN = 0
+  FillGaps = "all"
+  FillN = 1500
   Page = 1000
   ListTruncated = FALSE
   ClampLocal = FALSE
